@@ -38,6 +38,7 @@ type vSerKind struct {
 	canon   func(idx any) string
 	train   func(idx any) error // trains an untrained index (nil for kinds that need no training)
 	hnsw    bool
+	ef      int  // hnsw: efSearch (exactness regime limit)
 	textual bool // holds a BM25 index: flushing changes scores (not ids)
 }
 
@@ -250,6 +251,7 @@ func vSerVecKind(cfg vVecCfg) *vSerKind {
 			return idx.(VectorIndex).Train(nodes)
 		},
 		hnsw: cfg.Kind == "hnsw",
+		ef:   cfg.Ef,
 	}
 }
 
@@ -842,8 +844,8 @@ func vSerShards(mode, tier string) []vShard {
 				if c.Expired() {
 					return
 				}
-				if k.hnsw && n > 8 {
-					break // beyond ef = 8 the graph search is approximate and a flush may change answers
+				if k.hnsw && n > k.ef {
+					break // beyond ef the graph search is approximate and a flush may change answers
 				}
 				w := &vSerSys{c: c, k: k, mode: mode, maxN: n + 1, contDepth: 0}
 				w.Reset()
